@@ -38,7 +38,7 @@ def gen(rng, fmt=None, mint=2, longspan=None):
         h = h0 + t * step
         d = yy * 1000 + jjj + h // 24          # stays within the year for the chosen values except day 365/366
         flags.append([d, (h % 24) * 100])
-    if rng.random() < 0.2:
+    if rng.random() < 0.2 and step < 24:
         # end-of-day labelling: midnight written as hour 24 of the day that ends (2200, 2300, 2400 on one julian day)
         for t in range(1, nt):
             if flags[t][1] == 0 and flags[t][0] == flags[t - 1][0] + 1 and flags[t - 1][1] != 2400:
